@@ -8,6 +8,7 @@
 #include <symengine/add.h>
 #include <symengine/pow.h>
 #include <symengine/logic.h>
+#include <symengine/symengine_exception.h>
 
 namespace SymEngine
 {
@@ -27,6 +28,16 @@ namespace SymEngine
 */
 
 class Tokenizer;
+
+//! Operand of a logical operator in parsed text: must be a Boolean expression
+inline RCP<const Boolean> parser_boolean_operand(const RCP<const Basic> &b)
+{
+    if (not is_a_Boolean(*b)) {
+        throw ParseError("Not of Boolean type in a logical operation: "
+                         + b->__str__());
+    }
+    return rcp_static_cast<const Boolean>(b);
+}
 
 class Parser
 {
